@@ -24,6 +24,24 @@ func (c *Ctx) TLSConfig(prop string) {
 		for _, ci := range Calls(fn, func(ci ssa.CallInstruction) bool { return IsCallTo(ci, "google.golang.org/grpc.NewServer") }) {
 			newServers = append(newServers, ci)
 		}
+		// session-ticket keys chosen by the program: a resumed session takes the peer certificates from the decrypted
+		// ticket without verifying them again, so whoever can compute the key can claim any verified identity. crypto/tls
+		// generates and rotates random keys when none are set; production code must leave it at that.
+		for _, ci := range Calls(fn, func(ci ssa.CallInstruction) bool {
+			f := ci.Common().StaticCallee()
+			return f != nil && f.Name() == "SetSessionTicketKeys" && f.Pkg != nil && f.Pkg.Pkg.Path() == "crypto/tls"
+		}) {
+			c.R.Fail(rule, Fn(fn)+":session-tickets", c.Pos(ci), "the program installs its own TLS session-ticket keys: resumed sessions carry the peer's certificates inside the ticket unverified, so a computable or shared key lets a caller without a certificate claim a verified identity", "no SetSessionTicketKeys / SessionTicketKey in production code (crypto/tls generates random keys)", nil)
+		}
+		for _, b := range fn.Blocks {
+			for _, ins := range b.Instrs {
+				if st, ok := ins.(*ssa.Store); ok {
+					if fa, ok := st.Addr.(*ssa.FieldAddr); ok && fieldNameOf(fa) == "SessionTicketKey" && namedIs(fa.X.Type(), "crypto/tls", "Config") {
+						c.R.Fail(rule, Fn(fn)+":session-tickets", c.Pos(st), "the program sets tls.Config.SessionTicketKey itself", "no SetSessionTicketKeys / SessionTicketKey in production code (crypto/tls generates random keys)", nil)
+					}
+				}
+			}
+		}
 	}
 	if len(newServers) != 1 {
 		c.R.Fail(rule2, "grpc.NewServer", "-", fmt.Sprintf("expected exactly one gRPC server in production code, found %d", len(newServers)), "a single server carrying the TLS credentials", nil)
